@@ -67,7 +67,12 @@ def score_matches_definition(self, ranking, dataset, result):
     ds = libx.raw_dataset(dataset)
     from vf import gen
     exact = gen.is_dyadic(sch)
-    expected = ref.kemeny(cand, ds, sch)
+    if sum(len(b) for b in cand) > 60 and exact:
+        # large candidates: the vectorised reference (exact on dyadic penalties, cross-checked against the Fraction model)
+        from vf import refnp
+        expected = refnp.kemeny(cand, ds, sch)
+    else:
+        expected = ref.kemeny(cand, ds, sch)
     if not close(result, expected, exact):
         ctx.violation("C01/score-differs-from-definition",
                       "get_kemeny_score returned a value different from the pairwise-penalty definition",
@@ -97,7 +102,7 @@ def record_cost_matrix(positions, scoring_scheme, result):
     if ctx is None:
         return True
     ctx.count("contract:pairwise_cost_matrix")
-    if len(COST_CALLS) < 64:
+    if len(COST_CALLS) < 64 and positions.shape[0] <= 200:
         COST_CALLS.append((positions.copy(), scheme_raw(scoring_scheme), result.copy()))
     return True
 
@@ -144,8 +149,9 @@ def consensus_problems(consensus, dataset, at_most_one):
         return [("C03/no-ranking-returned", f"{len(rankings) if isinstance(rankings, list) else rankings!r} rankings")]
     if at_most_one and len(rankings) != 1:
         probs.append(("C03/more-than-one-ranking", f"{len(rankings)} rankings returned although at most one asked"))
-    universe = dataset.universe
-    uni_keys = {(type(e.value), e.value) for e in universe}
+    # "the set of elements that appear in the dataset": read from the rankings themselves, not from the Dataset's own
+    # summary of them (whose consistency is C16's business and which aliasing or a stale cache may have corrupted)
+    uni_keys = {(type(e.value), e.value) for rk in dataset.rankings for b in rk.buckets for e in b}
     for r in rankings:
         if not isinstance(r, ck.Ranking):
             probs.append(("C03/not-a-ranking", f"{type(r).__name__} in consensus_rankings"))
